@@ -175,7 +175,7 @@ func C07(tier common.Tier) int {
 	run.SetRule("state = (base program, diagnostic d of the base, placement of one @ignore comment relative to d, code list). Each state is rendered and analysed by the real analyzers; the observed set must equal base minus {diagnostics inside the reference scope (computed from go/parser on the variant: file / declaration span / statement span incl. nested block / the single line) that match the list by ALL>category>code}, with TONL01/PKGO01 moving to the next unsuppressed use. Non-trivial = the reference removes or moves at least one diagnostic.",
 		"all diagnostics of the base programs (16 codes; statement-start and mid-statement anchors; function level, nested, package level; declaring and using package; two files) x 9 placements x 17 code lists")
 	run.Assume("base verdicts are judged by C01-C05; here only the difference is judged", "scopes follow the property statement: file / following declaration / following statement / own line")
-	run.NotJudged("a stand-alone comment that is the last thing in a block", "stand-alone comments before struct fields, case clauses or specs inside a grouped declaration")
+	run.NotJudged("what a stand-alone comment that is the last thing in a function body covers INSIDE that declaration (nothing follows it; outside the declaration nothing may change, and that is judged)", "stand-alone comments before struct fields, case clauses or specs inside a grouped declaration")
 	bases := e1.IgBases()
 	common.Sharded(run, common.NumWorkers(), func(run *common.Run, sh common.Shard) {
 		idx := 0
@@ -345,7 +345,116 @@ func C07(tier common.Tier) int {
 			}
 		}
 	})
+	c07Dangling(run, bases)
 	return run.Finish()
+}
+
+// c07Dangling: comments after which NOTHING follows — the last thing in a function body, or after the last
+// declaration of a file — cover no statement. Whatever they do inside their own declaration (not judged), every
+// diagnostic outside it stays; at the end of a file nothing changes at all. Run on the plain base and on the base
+// with an inert file-level marker in every file (so that the dangling comment is not the first marker read).
+func c07Dangling(run *common.Run, bases []*e1.IgBase) {
+	keys := func(b *e1.IgBase, ds []baseDiag, v *e1.IgVariant, skip func(fi, vl int, code string) bool) []string {
+		var out []string
+		for _, d := range ds {
+			vl := d.line
+			if v != nil {
+				vl = v.MapLine(d.file, d.line)
+			}
+			if skip != nil && skip(d.file, vl, d.code) {
+				continue
+			}
+			out = append(out, fmt.Sprintf("%s:%d:%s", b.Files[d.file].Name+"@"+b.Files[d.file].Pkg, vl, d.code))
+		}
+		sort.Strings(out)
+		return out
+	}
+	for _, b0 := range bases {
+		base0, _ := runIg(b0)
+		// the same program with an inert file-level marker in every file
+		b1 := b0
+		for fi := range b0.Files {
+			_, nb, ok := e1.MakeVariant(b1, fi, 1, e1.PlFile, "// @ignore ZZZ9")
+			if !ok {
+				common.Fatalf("cannot place a file-level marker in file %d", fi)
+			}
+			b1 = nb
+		}
+		base1, r1 := runIg(b1)
+		{
+			var shifted []baseDiag
+			for _, d := range base0 {
+				shifted = append(shifted, baseDiag{d.file, d.line + 1, d.code})
+			}
+			w, g := keys(b0, shifted, nil, nil), keys(b1, base1, nil, nil)
+			run.State(1, strings.Join(g, "|"), "inert-file-level|"+b0.Name)
+			if strings.Join(w, "|") != strings.Join(g, "|") || r1.Panic != "" {
+				missing, extra := diffKeys(w, g)
+				run.Report(common.Cex{Sig: fmt.Sprintf("ignore-inert-file-level|nmissing=%d|nextra=%d", len(missing), len(extra)),
+					Summary: fmt.Sprintf("`// @ignore ZZZ9` (no such code) before the package clause of every file changes the diagnostics: vanished %v, new %v %s", missing, extra, r1.Panic),
+					Detail:  map[string]any{"program": b1.Program().Text()}})
+				continue
+			}
+		}
+		for bi, bb := range []struct {
+			b    *e1.IgBase
+			base []baseDiag
+		}{{b0, base0}, {b1, base1}} {
+			b, base := bb.b, bb.base
+			doneDecl, doneFile := map[string]bool{}, map[int]bool{}
+			for _, d := range base {
+				cat := categoryOf(d.code)
+				type job struct {
+					pl   e1.IgPlacement
+					text string
+				}
+				var jobs []job
+				if fi, err := e1.ParseInfo(b.Files[d.file].Src()); err == nil {
+					ds, _ := fi.DeclSpan(d.line)
+					if k := fmt.Sprintf("%d:%d", d.file, ds); ds > 0 && !doneDecl[k] {
+						doneDecl[k] = true
+						for _, t := range []string{" ALL", " " + cat, " " + d.code, " IMM, CTOR, TONL, PKGO, IMPL", ""} {
+							jobs = append(jobs, job{e1.PlDangling, t})
+						}
+					}
+				}
+				if !doneFile[d.file] {
+					doneFile[d.file] = true
+					for _, t := range []string{" ALL", " IMM, CTOR, TONL, PKGO, IMPL"} {
+						jobs = append(jobs, job{e1.PlEOF, t})
+					}
+				}
+				for _, j := range jobs {
+					v, nb, ok := e1.MakeVariant(b, d.file, d.line, j.pl, "// @ignore"+j.text)
+					if !ok {
+						continue
+					}
+					for _, rev := range []bool{false, true} {
+						got, res := runIgOrder(nb, rev)
+						skip := func(fi, vl int, code string) bool {
+							if j.pl == e1.PlEOF {
+								return false
+							}
+							return onceCode(code) || (fi == v.File && vl >= v.DeclFrom && vl <= v.DeclTo)
+						}
+						w, g := keys(b, base, v, skip), keys(nb, got, nil, skip)
+						nt := ""
+						if len(w) > 0 {
+							nt = fmt.Sprintf("dangling|%s|%d|%s|%d|%s|%v", b.Name, bi, j.pl, d.file, v.Desc, rev)
+						}
+						run.State(1, strings.Join(g, "|"), nt)
+						if strings.Join(w, "|") != strings.Join(g, "|") || res.Panic != "" {
+							missing, extra := diffKeys(w, g)
+							run.Report(common.Cex{Sig: fmt.Sprintf("ignore-dangling|placement=%s|filemarker=%v|list=%s|lost=%s|gained=%s", j.pl, bi == 1, strings.TrimSpace(j.text), codesOf(missing), codesOf(extra)),
+								Summary: fmt.Sprintf("`// @ignore%s` with nothing after it (%s, %s; inert file-level marker present: %v; reversed parse order: %v) changes diagnostics OUTSIDE its declaration: vanished %v, new %v %s",
+									j.text, j.pl, v.Desc, bi == 1, rev, missing, extra, res.Panic),
+								Detail: map[string]any{"program": nb.Program().Text()}})
+						}
+					}
+				}
+			}
+		}
+	}
 }
 
 func init() { Register("C07", C07) }
